@@ -977,19 +977,23 @@ def anyToks (p : Tok → Bool) : List Tok → Bool
   | t :: r => anyTok p t || anyToks p r
 end
 
+/-- an `rgb()/rgba()/hsl()/hsla()` function whose arguments do not fit the colour grammar: not a value -/
+def badColorFn (t : Tok) : Bool :=
+  t.tt == .function && ["rgb", "rgba", "hsl", "hsla"].contains (String.ofList (funcName t)) && (funcColor t).isNone
+
 def isProgid (t : Tok) : Bool := t.tt == .ident && lower t.data == "progid".toList
 def isProgidString (t : Tok) : Bool := t.tt == .string && lower ((t.data.drop 1).take 7) == "progid:".toList
 
 /-- do the value lists `a` (input) and `b` (output) of property `prop` denote the same value?
     1 = same, 0 = different, 2 = not judged: the input is outside the grammar of the property, contains an
-    `hsl()` tie (float territory) or an IE `progid:` filter -/
+    `hsl()` tie (float territory), an invalid colour function or an IE `progid:` filter -/
 def verdict (prop : List Char) (a b : List Tok) : Nat :=
   let a := a.filter fun t => t.tt != .whitespace
   let b := b.filter fun t => t.tt != .whitespace
   let na := normList a
   let nb := normList b
   if na == nb then 1
-  else if anyToks hslTie a || anyToks isProgid a || anyToks isProgidString a then 2
+  else if anyToks hslTie a || anyToks isProgid a || anyToks isProgidString a || anyToks badColorFn a then 2
   else if prop == "margin".toList || prop == "padding".toList || prop == "border-width".toList then
     cmpDen (fourSides na) (fourSides nb)
   else if prop == "border-color".toList then
